@@ -137,6 +137,16 @@ def menu(ctx: Ctx, rng: random.Random) -> list[dict]:
               {"op": "bban.random", "country": cps(cc), "seed": 4, "use_registry": True, "pinned": [], "vals": {}},
               {"op": "iban.new", "t": cps(gen.valid_iban(row, rng)), "vb": True},
               {"op": "iban.generate", "cc": cps(cc), "bank": cps("1"), "branch": [], "acct": cps("2")}]
+    # registry-based draws with and without pinned components, same country and seed (a pinned value
+    # written into the drawn registry entry would come back in the unpinned draw); MC has a single bank
+    for cc, pin in (("DE", {"bank_code": "99999999"}), ("DE", {"account_code": "0000012345"}),
+                    ("MC", {"account_code": "0000012345X"[:11]})):
+        FAMILIES.append(list(range(len(m), len(m) + 4)))
+        vals = {k: cps(v) for k, v in pin.items()}
+        m += [{"op": "iban.random", "country": cps(cc), "seed": 11, "use_registry": True, "pinned": [], "vals": {}},
+              {"op": "iban.random", "country": cps(cc), "seed": 11, "use_registry": True, "pinned": sorted(pin), "vals": vals},
+              {"op": "bban.random", "country": cps(cc), "seed": 12, "use_registry": True, "pinned": [], "vals": {}},
+              {"op": "iban.random", "country": cps(cc), "seed": 11, "use_registry": False, "pinned": sorted(pin), "vals": vals}]
     # texts that differ only at a BBAN position no component covers (filler), and for a country without
     # positions: a memo keyed by the components would confuse a valid IBAN with its corruption
     for row in ctx.table(env0):
